@@ -141,8 +141,12 @@ def run(ctx: Ctx):
     lits = G.rule_literals(cname)
     shapes = [G.terms[t]["shape"] for t in terms if t in G.terms]
     regexes = re.findall(r"/((?:[^/\\]|\\.)*)/", crule["shape"]) + [m for s in shapes for m in re.findall(r"/((?:[^/\\]|\\.)*)/", s)]
-    ok_c = bool(regexes) and all(_comment_regex_stops_at(rx) == {"\n"} for rx in regexes) and not lits
-    ctx.check(
+    stops = [_comment_regex_stops_at(rx) for rx in regexes]
+    ok_c = bool(regexes) and all(st == {"\n"} for st in stops) and not lits
+    if not ok_c and regexes and not lits and all(rx.lstrip("\\").startswith("#") for rx in regexes) and all(st is None or st == {"\n"} for st in stops):
+        ctx.undecided("R17.b", "src/gotranx/ode.lark::comment::terminal", f"the comment terminal {regexes} is one token that starts with `#`, but where it stops is not understood", "src/gotranx/ode.lark")
+        ok_c = None
+    ok_c is None or ctx.check(
         ok_c,
         "R17.b",
         "src/gotranx/ode.lark::comment::terminal",
